@@ -14,10 +14,12 @@ Section OpInd.
   Hypothesis HE : forall fs ss, P (OElem fs ss).
   Hypothesis HO : forall h body, Forall P body -> P (OOnce h body).
   Hypothesis HN : forall n, P (ONonce n).
+  Hypothesis HM : forall l, P (OMiddleware l).
   Fixpoint op_ind2 (o : op) : P o :=
     match o with
     | OText t => HT t
     | ONonce n => HN n
+    | OMiddleware l => HM l
     | ORender s => HR s
     | OScriptItems l => HS l
     | OCSSItems fs => HC fs
@@ -109,18 +111,21 @@ Qed.
 
 (* ---------- the invariant of one stretch of output ---------- *)
 Definition uses_ok (r : reg) (e : list ev) : Prop :=
-  forall pre i post, e = pre ++ Use i :: post -> Seen r i \/ In i (defs pre).
+  forall pre i post, e = pre ++ Use i :: post -> Seen r i \/ In i (defs pre) \/ In i (regs pre).
 Definition ok (r r' : reg) (e : list ev) : Prop :=
-  (forall i, Seen r' i <-> Seen r i \/ In i (defs e)) /\ NoDup (defs e) /\
-  (forall i, In i (defs e) -> ~ Seen r i) /\ uses_ok r e.
+  (forall i, Seen r' i <-> Seen r i \/ In i (defs e) \/ In i (regs e)) /\ NoDup (defs e) /\
+  (forall i, In i (defs e) -> ~ Seen r i) /\ uses_ok r e /\ never_inlined_once_registered e.
 
 Lemma defs_app a b : defs (a ++ b) = defs a ++ defs b.
 Proof. unfold defs. apply flat_map_app. Qed.
+Lemma regs_app a b : regs (a ++ b) = regs a ++ regs b.
+Proof. unfold regs. apply flat_map_app. Qed.
 
 Lemma ok_nil r : ok r r [].
 Proof.
-  unfold ok. split; [intros; cbn; tauto|]. split; [constructor|]. split; [intros i []|].
-  intros p i q X. destruct p; discriminate.
+  unfold ok. split; [intros; cbn; tauto|]. split; [constructor|]. split; [intros i []|]. split.
+  - intros p i q X. destruct p; discriminate.
+  - intros p i q X. destruct p; discriminate.
 Qed.
 
 Lemma NoDup_app_intro {A} (a b : list A) : NoDup a -> NoDup b -> (forall x, In x a -> In x b -> False) -> NoDup (a ++ b).
@@ -130,63 +135,101 @@ Proof.
   - apply IH; auto. intros y Y1 Y2. apply (H y); [right; exact Y1|exact Y2].
 Qed.
 
-Lemma split_at_use (e1 e2 pre post : list ev) i : e1 ++ e2 = pre ++ Use i :: post ->
-  (exists p2, pre = e1 ++ p2 /\ e2 = p2 ++ Use i :: post) \/ (exists q, e1 = pre ++ Use i :: q).
+Lemma split_at (e1 e2 pre post : list ev) x : e1 ++ e2 = pre ++ x :: post ->
+  (exists p2, pre = e1 ++ p2 /\ e2 = p2 ++ x :: post) \/ (exists q, e1 = pre ++ x :: q /\ post = q ++ e2).
 Proof.
-  revert pre. induction e1 as [|x e1 IH]; intros pre E.
+  revert pre. induction e1 as [|y e1 IH]; intros pre E.
   - left. exists pre. split; [reflexivity|exact E].
-  - destruct pre as [|y pre].
-    + cbn in E. inversion E; subst. right. eexists. reflexivity.
-    + cbn in E. inversion E; subst. destruct (IH pre H1) as [[p2 [-> Hp]]|[q ->]].
+  - destruct pre as [|z pre].
+    + cbn in E. inversion E; subst. right. eexists. split; reflexivity.
+    + cbn in E. inversion E; subst. destruct (IH pre H1) as [[p2 [-> Hp]]|[q [-> ->]]].
       * left. exists p2. split; [reflexivity|exact Hp].
-      * right. exists q. reflexivity.
+      * right. exists q. split; reflexivity.
 Qed.
 
 Lemma ok_seq r r1 r2 e1 e2 : ok r r1 e1 -> ok r1 r2 e2 -> ok r r2 (e1 ++ e2).
 Proof.
-  intros [A1 [B1 [C1 D1]]] [A2 [B2 [C2 D2]]]. unfold ok. rewrite defs_app. repeat split.
-  - intros X. apply A2 in X as [X|X]; [apply A1 in X as [X|X]; [left; exact X|right; apply in_or_app; left; exact X]|right; apply in_or_app; right; exact X].
-  - intros [X|X]; apply A2; [left; apply A1; left; exact X|apply in_app_or in X as [X|X]; [left; apply A1; right; exact X|right; exact X]].
-  - apply NoDup_app_intro; auto. intros i X Y. apply (C2 i Y). apply A1. right. exact X.
+  intros [A1 [B1 [C1 [D1 E1]]]] [A2 [B2 [C2 [D2 E2]]]]. unfold ok. rewrite defs_app, regs_app.
+  split; [|split; [|split; [|split]]].
+  - intros i. rewrite A2, A1, !in_app_iff. tauto.
+  - apply NoDup_app_intro; auto. intros i X Y. apply (C2 i Y). apply A1. right. left. exact X.
   - intros i X. apply in_app_or in X as [X|X]; [apply C1; exact X|]. intros Y. apply (C2 i X). apply A1. left. exact Y.
-  - intros pre i post E. destruct (split_at_use _ _ _ _ _ E) as [[p2 [-> E2]]|[q E1]].
-    + destruct (D2 _ _ _ E2) as [X|X].
-      * apply A1 in X as [X|X]; [left; exact X|right; rewrite defs_app; apply in_or_app; left; exact X].
-      * right. rewrite defs_app. apply in_or_app. right. exact X.
-    + apply (D1 _ _ _ E1).
+  - intros pre i post E. destruct (split_at _ _ _ _ _ E) as [[p2 [-> Ep]]|[q [Eq _]]].
+    + rewrite defs_app, regs_app, !in_app_iff. destruct (D2 _ _ _ Ep) as [X|[X|X]]; [|tauto|tauto].
+      apply A1 in X. tauto.
+    + apply (D1 _ _ _ Eq).
+  - intros pre i post E. destruct (split_at _ _ _ _ _ E) as [[p2 [-> Ep]]|[q [Eq ->]]].
+    + apply (E2 _ _ _ Ep).
+    + rewrite defs_app, in_app_iff. intros [X|X]; [apply (E1 _ _ _ Eq); exact X|].
+      apply (C2 i X). apply A1. right. right. rewrite Eq, regs_app. apply in_or_app. right. left. reflexivity.
 Qed.
 
 Lemma defs_map_def {A} (f : A -> id) l : defs (map (fun x => Def (f x)) l) = map f l.
 Proof. induction l as [|x t IH]; cbn; [reflexivity|]. f_equal. exact IH. Qed.
 Lemma defs_map_use {A} (f : A -> id) l : defs (map (fun x => Use (f x)) l) = [].
 Proof. induction l as [|x t IH]; cbn; [reflexivity|exact IH]. Qed.
+Lemma regs_map_def {A} (f : A -> id) l : regs (map (fun x => Def (f x)) l) = [].
+Proof. induction l as [|x t IH]; cbn; [reflexivity|exact IH]. Qed.
+Lemma regs_map_use {A} (f : A -> id) l : regs (map (fun x => Use (f x)) l) = [].
+Proof. induction l as [|x t IH]; cbn; [reflexivity|exact IH]. Qed.
+Lemma regs_map_reg {A} (f : A -> id) l : regs (map (fun x => Reg (f x)) l) = map f l.
+Proof. induction l as [|x t IH]; cbn; [reflexivity|]. f_equal. exact IH. Qed.
+Lemma defs_map_reg {A} (f : A -> id) l : defs (map (fun x => Reg (f x)) l) = [].
+Proof. induction l as [|x t IH]; cbn; [reflexivity|exact IH]. Qed.
+(* a stretch that holds no event of some kind *)
+Lemma no_such_ev {A} (g : A -> ev) (x : ev) l pre post :
+  (forall a, g a <> x) -> map g l = pre ++ x :: post -> False.
+Proof.
+  intros N E. assert (In x (map g l)) as X by (rewrite E; apply in_or_app; right; left; reflexivity).
+  apply in_map_iff in X as [a [X _]]. exact (N a X).
+Qed.
 
 Lemma ok_emit {A} (idf : A -> id) r l r' n : emit_new idf r l = (r', n) -> ok r r' (map (fun x => Def (idf x)) n).
 Proof.
   intros H. destruct (emit_new_spec idf l r r' n H) as [A1 [B [C _]]].
-  unfold ok. rewrite defs_map_def. split; [exact A1|]. split; [exact B|]. split; [exact C|].
-  intros pre i post E. exfalso.
-  assert (In (Use i) (map (fun x => Def (idf x)) n)) as X by (rewrite E; apply in_or_app; right; left; reflexivity).
-  apply in_map_iff in X as [x [X _]]. discriminate.
+  unfold ok. rewrite defs_map_def, regs_map_def. split; [intros i; rewrite A1; cbn; tauto|]. split; [exact B|]. split; [exact C|]. split.
+  - intros pre i post E. exfalso. apply (fun N => no_such_ev _ _ _ _ _ N E). intros a; discriminate.
+  - intros pre i post E. exfalso. apply (fun N => no_such_ev _ _ _ _ _ N E). intros a; discriminate.
 Qed.
 
 Lemma ok_uses r (us : list id) : (forall i, In i us -> Seen r i) -> ok r r (map Use us).
 Proof.
   intros H. unfold ok. assert (D : defs (map Use us) = []) by (apply (defs_map_use (fun i => i))).
-  rewrite D. split; [intros; cbn; tauto|]. split; [constructor|]. split; [intros i []|].
-  intros pre i post E. left. apply H.
-  assert (In (Use i) (map Use us)) as X by (rewrite E; apply in_or_app; right; left; reflexivity).
-  apply in_map_iff in X as [x [X Hx]]. inversion X; subst. exact Hx.
+  assert (G : regs (map Use us) = []) by (apply (regs_map_use (fun i => i))).
+  rewrite D, G. split; [intros; cbn; tauto|]. split; [constructor|]. split; [intros i []|]. split.
+  - intros pre i post E. left. apply H.
+    assert (In (Use i) (map Use us)) as X by (rewrite E; apply in_or_app; right; left; reflexivity).
+    apply in_map_iff in X as [x [X Hx]]. inversion X; subst. exact Hx.
+  - intros pre i post E. exfalso. apply (fun N => no_such_ev _ _ _ _ _ N E). intros a; discriminate.
+Qed.
+
+(* the context passes through a CSS middleware: the registry it carries already is extended *)
+Lemma fold_add_seen ks : forall r i, Seen (fold_left (fun r k => add r (clid k)) ks r) i <-> Seen r i \/ In i (map clid ks).
+Proof.
+  induction ks as [|k t IH]; intros r i; cbn [fold_left map In]; [tauto|].
+  rewrite IH, seen_add. split; [intros [[X|X]|X]; auto|intros [X|[X|X]]; auto].
+Qed.
+
+Lemma ok_regs r ks : ok r (add_classes r ks) (map (fun c => Reg (clid c)) ks).
+Proof.
+  unfold ok, add_classes. rewrite defs_map_reg, regs_map_reg.
+  split; [intros i; rewrite fold_add_seen; cbn; tauto|]. split; [constructor|]. split; [intros i []|]. split.
+  - intros pre i post E. exfalso. apply (fun N => no_such_ev _ _ _ _ _ N E). intros a; discriminate.
+  - intros pre i post E X.
+    assert (Y : defs (map (fun c => Reg (clid c)) ks) = []) by apply defs_map_reg.
+    rewrite E, defs_app in Y. cbn [defs flat_map app] in Y. fold (defs post) in Y.
+    apply app_eq_nil in Y as [_ Y]. rewrite Y in X. exact X.
 Qed.
 
 Lemma ok_def1 r i : ~ Seen r i -> ok r (add r i) [Def i].
 Proof.
-  intros N. unfold ok. change (defs [Def i]) with [i]. split; [|split; [|split]].
+  intros N. unfold ok. change (defs [Def i]) with [i]. change (regs [Def i]) with (@nil id). split; [|split; [|split; [|split]]].
   - intros j. rewrite seen_add. cbn [In]. split; intros H.
-    + destruct H as [H|H]; [subst; right; left; reflexivity|left; exact H].
-    + destruct H as [H|[H|H]]; [right; exact H|left; symmetry; exact H|contradiction].
+    + destruct H as [H|H]; [subst; right; left; left; reflexivity|left; exact H].
+    + destruct H as [H|[[H|H]|H]]; [right; exact H|left; symmetry; exact H|contradiction|contradiction].
   - constructor; [intros []|constructor].
   - intros j [<-|[]]. exact N.
+  - intros pre j post E. destruct pre as [|a [|b p]]; discriminate.
   - intros pre j post E. destruct pre as [|a [|b p]]; discriminate.
 Qed.
 
@@ -354,7 +397,7 @@ Qed.
 
 Lemma step_ok o : step_ok_at o.
 Proof.
-  induction o as [t|s|l|fs|fs sl|h body IH|n] using op_ind2; intros r r' c H.
+  induction o as [t|s|l|fs|fs sl|h body IH|n|l] using op_ind2; intros r r' c H.
   - cbn in H. inversion H; subst. apply ok_nil.
   - cbn [step] in H. destruct (emit_new sid r [s]) as [r1 n] eqn:E. inversion H; subst. clear H.
     destruct (emit_new_spec _ _ _ _ _ E) as [_ [_ [_ [D _]]]].
@@ -379,24 +422,21 @@ Proof.
       apply (ok_uses r' [Handle h]). intros i [<-|[]]. apply Hb. left. apply seen_add. left; reflexivity.
   - cbn in H. inversion H; subst. cbn.
     (* the nonce is not part of what has been rendered *)
-    unfold ok. change (defs []) with (@nil id). split; [|split; [constructor|split; [intros i []|]]].
+    unfold ok. change (defs []) with (@nil id). change (regs []) with (@nil id).
+    split; [|split; [constructor|split; [intros i []|split]]].
     + intros i. unfold Seen. assert (E : has (set_nonce r n) i = has r i) by (destruct i; reflexivity). rewrite E. cbn. tauto.
     + intros p i q X. destruct p; discriminate.
+    + intros p i q X. destruct p; discriminate.
+  - cbn in H. inversion H; subst. cbn [log flat_map log1]. rewrite app_nil_r. apply ok_regs.
 Qed.
 
 Theorem run_ok l r r' c : run r l = (r', c) -> ok r r' (log c).
 Proof. apply run_ok_F. apply Forall_forall. intros o _. apply step_ok. Qed.
 
 (* ---------- contexts as the middleware / InitializeContext hands them over ---------- *)
-Lemma fold_add_seen ks : forall r i, Seen (fold_left (fun r k => add r (clid k)) ks r) i <-> Seen r i \/ In i (map clid ks).
-Proof.
-  induction ks as [|k t IH]; intros r i; cbn [fold_left map In]; [tauto|].
-  rewrite IH, seen_add. split; [intros [[X|X]|X]; auto|intros [X|[X|X]]; auto].
-Qed.
-
 Lemma init_seen cf i : Seen (init_reg cf) i <-> exists k, In k (mw_comps cf) /\ i = clid k.
 Proof.
-  unfold init_reg. rewrite fold_add_seen. split.
+  unfold init_reg, add_classes. rewrite fold_add_seen. split.
   - intros [X|X]; [destruct i; cbn in X; discriminate|]. apply in_map_iff in X as [k [<- Hk]]. exists k. tauto.
   - intros [k [Hk ->]]. right. apply in_map. exact Hk.
 Qed.
@@ -407,9 +447,13 @@ Proof. intros H. apply (run_ok _ _ _ _ H). Qed.
 Theorem emit_before_first_use cf ops r' c : run (init_reg cf) ops = (r', c) ->
   before_first_use (fun i => exists k, In k (mw_comps cf) /\ i = clid k) (log c).
 Proof.
-  intros H pre i post E. destruct (run_ok _ _ _ _ H) as [_ [_ [_ U]]].
+  intros H pre i post E. destruct (run_ok _ _ _ _ H) as [_ [_ [_ [U _]]]].
   destruct (U pre i post E) as [X|X]; [left; apply init_seen; exact X|right; exact X].
 Qed.
+
+(* a middleware the context passes through at any point: what it registers is not written into the page afterwards *)
+Theorem registered_midway_never_inlined r ops r' c : run r ops = (r', c) -> never_inlined_once_registered (log c).
+Proof. intros H. apply (run_ok _ _ _ _ H). Qed.
 
 Theorem middleware_never_inlined cf ops r' c k : run (init_reg cf) ops = (r', c) ->
   In k (mw_comps cf) -> ~ In (Def (clid k)) (log c).
@@ -420,18 +464,23 @@ Proof.
   - apply init_seen. exists k. tauto.
 Qed.
 
+Theorem sheet_serves_registered l k : In k (handler_comps l) ->
+  exists a b, sheet_of l = a ++ crule k ++ b.
+Proof.
+  unfold sheet_of. induction (handler_comps l) as [|x t IH]; intros []; subst.
+  - exists [], (concat (map crule t)). reflexivity.
+  - destruct (IH H) as [a [b E]]. exists (crule x ++ a), b. cbn. rewrite E, app_assoc. reflexivity.
+Qed.
 Theorem stylesheet_serves_registered cf k : In k (mw_comps cf) ->
   exists a b, stylesheet cf = a ++ crule k ++ b.
 Proof.
-  unfold stylesheet. induction (mw_comps cf) as [|x t IH]; intros []; subst.
-  - exists [], (concat (map crule t)). reflexivity.
-  - destruct (IH H) as [a [b E]]. exists (crule x ++ a), b. cbn. rewrite E, app_assoc. reflexivity.
+  unfold stylesheet, mw_comps. destruct (cmw cf) as [l|]; [apply sheet_serves_registered|intros []].
 Qed.
 
 (* a registered class is exactly a ComponentCSSClass passed to NewCSSMiddleware *)
 Lemma mw_comps_In cf k : In k (mw_comps cf) <-> exists l, cmw cf = Some l /\ In (KComp k) l.
 Proof.
-  unfold mw_comps. destruct (cmw cf) as [l|].
+  unfold mw_comps, handler_comps. destruct (cmw cf) as [l|].
   - rewrite in_flat_map. split.
     + intros [x [Hx X]]. destruct x; cbn in X; try contradiction. destruct X as [<-|[]]. exists l. tauto.
     + intros [l' [E H]]. inversion E; subst. exists (KComp k). split; [exact H|left; reflexivity].
@@ -451,6 +500,9 @@ Qed.
 Lemma sid_nh : forall x, match sid x with Handle _ => False | _ => True end. Proof. intros; exact I. Qed.
 Lemma clid_nh : forall x, match clid x with Handle _ => False | _ => True end. Proof. intros; exact I. Qed.
 
+Lemma fold_add_hs ks : forall r, hs (fold_left (fun r k => add r (clid k)) ks r) = hs r.
+Proof. induction ks as [|k t IH]; intros r; cbn; [reflexivity|]. rewrite IH. reflexivity. Qed.
+
 Lemma wanted1_once hs0 h body :
   wanted1 hs0 (OOnce h body) = if existsb (N.eqb h) hs0 then (hs0, []) else wanted (h :: hs0) body.
 Proof. reflexivity. Qed.
@@ -469,7 +521,7 @@ Qed.
 
 Lemma step_served o : step_served_at o.
 Proof.
-  induction o as [t|s|l|fs|fs sl|h body IH|n] using op_ind2; intros r r' c H.
+  induction o as [t|s|l|fs|fs sl|h body IH|n|l] using op_ind2; intros r r' c H.
   - cbn in H. inversion H; subst. reflexivity.
   - cbn [step] in H. destruct (emit_new sid r [s]) as [r1 n] eqn:E. inversion H; subst.
     rewrite (emit_new_hs sid sid_nh _ _ _ _ E). cbn [wanted1]. destruct (scall s); reflexivity.
@@ -490,6 +542,7 @@ Proof.
       pose proof (run_served_F body IH _ _ _ R) as X. cbn [add hs] in X. rewrite <- X.
       rewrite wants_cons, wants_app. cbn [wants flat_map want1 app]. rewrite app_nil_r. reflexivity.
   - cbn in H. inversion H; subst. reflexivity.
+  - cbn in H. inversion H; subst. unfold add_classes. rewrite fold_add_hs. reflexivity.
 Qed.
 
 Theorem every_use_served l r r' c : run r l = (r', c) -> wants c = snd (wanted (hs r) l).
@@ -499,10 +552,8 @@ Proof.
   rewrite <- X. reflexivity.
 Qed.
 
-Lemma fold_add_hs ks : forall r, hs (fold_left (fun r k => add r (clid k)) ks r) = hs r.
-Proof. induction ks as [|k t IH]; intros r; cbn; [reflexivity|]. rewrite IH. reflexivity. Qed.
 Lemma init_hs cf : hs (init_reg cf) = [].
-Proof. unfold init_reg. rewrite fold_add_hs. reflexivity. Qed.
+Proof. unfold init_reg, add_classes. rewrite fold_add_hs. reflexivity. Qed.
 
 (* ---------- separate contexts ---------- *)
 Lemma proj_app {A} c (a b : list (nat * A)) : proj c (a ++ b) = proj c a ++ proj c b.
@@ -557,6 +608,12 @@ Section Multi.
     intros H. apply (middleware_never_inlined (cfgs c) (proj c h) (st' c)). apply (contexts_independent h st0 st' out c H).
   Qed.
 
+  Theorem multi_registered_midway h st' out c : run_multi st0 h = (st', out) ->
+    never_inlined_once_registered (log (proj c out)).
+  Proof.
+    intros H. apply (registered_midway_never_inlined (init_reg (cfgs c)) (proj c h) (st' c)). apply (contexts_independent h st0 st' out c H).
+  Qed.
+
   Theorem multi_independent h st' out c : run_multi st0 h = (st', out) ->
     run (init_reg (cfgs c)) (proj c h) = (st' c, proj c out).
   Proof. apply (contexts_independent h st0). Qed.
@@ -564,7 +621,9 @@ End Multi.
 
 (* ---------- the decidable form of the demands (what the harness evaluates on the implementation's documents) ---------- *)
 Definition idefs (l : list iev) : list id := flat_map (fun e => match e with IDef i => [i] | _ => [] end) l.
-Definition iuses (l : list iev) : list iev := filter (fun e => match e with IDef _ => false | _ => true end) l.
+Definition iregs (l : list iev) : list id := flat_map (fun e => match e with IReg i => [i] | _ => [] end) l.
+Definition iuses (l : list iev) : list iev :=
+  filter (fun e => match e with IDef _ => false | IReg _ => false | _ => true end) l.
 (* the use carries what was asked for *)
 Definition serves (e : iev) (w : want) : Prop :=
   match e, w with
@@ -575,28 +634,47 @@ Definition serves (e : iev) (w : want) : Prop :=
   end.
 
 Theorem check_log_sound l : forall d w, check_log d w l = true ->
-  NoDup (idefs l) /\ (forall i, In i (idefs l) -> ~ In i d) /\ Forall2 serves (iuses l) w.
+  NoDup (idefs l) /\ (forall i, In i (idefs l) -> ~ In i d) /\ Forall2 serves (iuses l) w /\
+  (forall pre i post, l = pre ++ IReg i :: post -> ~ In i (idefs post)).
 Proof.
   induction l as [|e t IH]; intros d w H.
-  - cbn in H. destruct w; [|discriminate]. cbn. split; [constructor|]. split; [intros i []|constructor].
-  - destruct e as [i|c|c|ns]; cbn [check_log] in H.
-    + apply andb_prop in H as [H1 H2]. destruct (IH _ _ H2) as [A [B C]].
+  - cbn in H. destruct w; [|discriminate]. cbn. split; [constructor|]. split; [intros i []|]. split; [constructor|].
+    intros [|? ?] ? ? ?; discriminate.
+  - assert (Tl : forall d' w', check_log d' w' t = true ->
+              (forall pre i post, t = pre ++ IReg i :: post -> ~ In i (idefs post)) ->
+              forall x, (forall i, x <> IReg i) ->
+              forall pre i post, x :: t = pre ++ IReg i :: post -> ~ In i (idefs post)).
+    { intros d' w' _ G x Nx pre i post E. destruct pre as [|y pre]; cbn in E; inversion E; subst.
+      - exfalso. apply (Nx i). reflexivity.
+      - apply (G _ _ _ eq_refl). }
+    destruct e as [i|c|c|ns|i]; cbn [check_log] in H.
+    + apply andb_prop in H as [H1 H2]. destruct (IH _ _ H2) as [A [B [C G]]].
       assert (Ni : ~ In i d). { intros X. apply mem_id_In in X. rewrite X in H1. discriminate. }
-      cbn [idefs flat_map app iuses filter]. fold (idefs t). fold (iuses t). split; [|split].
+      cbn [idefs flat_map app iuses filter]. fold (idefs t). fold (iuses t). split; [|split; [|split]].
       * constructor; [|exact A]. intros X. apply (B i X). left; reflexivity.
       * intros j [<-|X]; [exact Ni|]. intros Y. apply (B j X). right; exact Y.
       * exact C.
+      * apply (Tl _ _ H2 G). intros j; discriminate.
     + destruct w as [|[s|s|fs] w']; try discriminate.
-      apply andb_prop in H as [H1 H2]. apply andb_prop in H1 as [H0 H1]. destruct (IH _ _ H2) as [A [B C]].
-      cbn [idefs flat_map app iuses filter]. fold (idefs t). fold (iuses t). repeat split; auto.
-      constructor; [cbn; apply bytes_eqb_eq; exact H0|exact C].
+      apply andb_prop in H as [H1 H2]. apply andb_prop in H1 as [H0 H1]. destruct (IH _ _ H2) as [A [B [C G]]].
+      cbn [idefs flat_map app iuses filter]. fold (idefs t). fold (iuses t). split; [exact A|]. split; [exact B|]. split.
+      * constructor; [cbn; apply bytes_eqb_eq; exact H0|exact C].
+      * apply (Tl _ _ H2 G). intros j; discriminate.
     + destruct w as [|[s|s|fs] w']; try discriminate.
-      apply andb_prop in H as [H1 H2]. apply andb_prop in H1 as [H0 H1]. destruct (IH _ _ H2) as [A [B C]].
-      cbn [idefs flat_map app iuses filter]. fold (idefs t). fold (iuses t). repeat split; auto.
-      constructor; [cbn; apply bytes_eqb_eq; exact H0|exact C].
+      apply andb_prop in H as [H1 H2]. apply andb_prop in H1 as [H0 H1]. destruct (IH _ _ H2) as [A [B [C G]]].
+      cbn [idefs flat_map app iuses filter]. fold (idefs t). fold (iuses t). split; [exact A|]. split; [exact B|]. split.
+      * constructor; [cbn; apply bytes_eqb_eq; exact H0|exact C].
+      * apply (Tl _ _ H2 G). intros j; discriminate.
     + destruct w as [|[s|s|fs] w']; try discriminate.
-      apply andb_prop in H as [H1 H2]. destruct (IH _ _ H2) as [A [B C]].
-      cbn [idefs flat_map app iuses filter]. fold (idefs t). fold (iuses t). repeat split; auto.
-      constructor; [|exact C]. cbn. intros k Hk Hs. rewrite forallb_forall in H1. specialize (H1 k Hk).
-      apply andb_prop in H1 as [H1 _]. rewrite Hs in H1. cbn in H1. apply memb_In. exact H1.
+      apply andb_prop in H as [H1 H2]. destruct (IH _ _ H2) as [A [B [C G]]].
+      cbn [idefs flat_map app iuses filter]. fold (idefs t). fold (iuses t). split; [exact A|]. split; [exact B|]. split.
+      * constructor; [|exact C]. cbn. intros k Hk Hs. rewrite forallb_forall in H1. specialize (H1 k Hk).
+        apply andb_prop in H1 as [H1 _]. rewrite Hs in H1. cbn in H1. apply memb_In. exact H1.
+      * apply (Tl _ _ H2 G). intros j; discriminate.
+    + destruct (IH _ _ H) as [A [B [C G]]].
+      cbn [idefs flat_map app iuses filter]. fold (idefs t). fold (iuses t). split; [exact A|]. split; [|split; [exact C|]].
+      * intros j X Y. apply (B j X). right. exact Y.
+      * intros pre j post E. destruct pre as [|y pre]; cbn in E; inversion E; subst.
+        -- intros X. apply (B j X). left. reflexivity.
+        -- apply (G _ _ _ eq_refl).
 Qed.
